@@ -181,6 +181,7 @@ struct Ctx {
     uint64_t interleave = 0xcbf29ce484222325ULL;	// hash of the task-id sequence
     bool nontrivial = false;
     bool strict_enomem = false;	// C12: a call failing under an allocation fault must report ENOMEM
+    bool no_retry = false;	// a call that failed because of an injected fault is NOT re-issued: the object is used on as it is
     bool cb_installed = true;	// C11: the object under test was created with an error function
     bool c11 = false;		// C11: reporting-discipline oracle enabled (cfg c11)
     std::vector<long> main_allocs;	// per operation: VNA-domain allocations made by fault-armed calls
@@ -230,7 +231,7 @@ void fault_recovered(Ctx &c, const std::string &what, int first_err, bool alloc_
 	lc.done(); \
 	ERRVAR = lc.saved_errno; \
 	c11_auto((c), (what), (FAILED), lc.saved_errno); \
-	if (lib_try_ == 0 && lib_fired_ && (FAILED) && !(c).violated) { lib_pend_err_ = lc.saved_errno; lib_pend_alloc_ = lib_alloc_; fault_failed((c), (what), lc.saved_errno, lib_alloc_); continue; } \
+	if (lib_try_ == 0 && lib_fired_ && (FAILED) && !(c).violated) { lib_pend_err_ = lc.saved_errno; lib_pend_alloc_ = lib_alloc_; fault_failed((c), (what), lc.saved_errno, lib_alloc_); if (!(c).no_retry) continue; } \
 	if (lib_try_ == 1 && !(FAILED)) fault_recovered((c), (what), lib_pend_err_, lib_pend_alloc_ != 0); \
 	break; \
     }
